@@ -145,9 +145,10 @@ func (tx *Tx) getTxID() (id uint64, err error) {
 // 5. Unlock the database and clear the db field.
 func (tx *Tx) Commit() error {
 	var (
-		off            int64
-		e              *Entry
-		bucketMetaTemp BucketMeta
+		off             int64
+		e               *Entry
+		bucketMetaTemps = make(map[string]BucketMeta) // per bucket: span of the keys this transaction writes
+		metaBuckets     []string                      // those buckets, in the order they were first written
 	)
 
 	if tx.db == nil {
@@ -224,7 +225,10 @@ func (tx *Tx) Commit() error {
 		tx.db.ActiveFile.writeOff += entrySize
 
 		if tx.db.opt.EntryIdxMode == HintBPTSparseIdxMode {
-			bucketMetaTemp = tx.buildTempBucketMetaIdx(bucket, entry.Key, bucketMetaTemp)
+			if _, ok := bucketMetaTemps[bucket]; !ok {
+				metaBuckets = append(metaBuckets, bucket)
+			}
+			bucketMetaTemps[bucket] = tx.buildTempBucketMetaIdx(bucket, entry.Key, bucketMetaTemps[bucket])
 		}
 
 		if i == lastIndex {
@@ -234,8 +238,12 @@ func (tx *Tx) Commit() error {
 					return err
 				}
 
-				if err := tx.buildBucketMetaIdx(bucket, entry.Key, bucketMetaTemp); err != nil {
-					return err
+				// every bucket the transaction wrote to, not only the
+				// bucket of its last entry
+				for _, metaBucket := range metaBuckets {
+					if err := tx.buildBucketMetaIdx(metaBucket, entry.Key, bucketMetaTemps[metaBucket]); err != nil {
+						return err
+					}
 				}
 			} else {
 				tx.db.committedTxIds[txID] = struct{}{}
